@@ -29,9 +29,29 @@ func VerifH_C11_versions() {
 		before := snap(vt)
 		switch symChoice("op", 5) {
 		case 0: // insert a row of its own and commit
-			err := vIns(vt, t, int64(10*(w+1)+i), int64(i), nil)
-			symAssert(err == nil, "insert-ok")
-			symAssert(vt.Commit(vCtx) == nil, "commit-ok")
+			if symParam("faults", 0) == 1 && symChoice("faulty", 2) == 1 {
+				// one storage fault at a symbolic request of the commit; a
+				// transaction whose commit reports the failure is rolled
+				// back and run again once the fault is gone
+				symAssert(vt.Begin(vCtx) == nil, "begin-ok")
+				symAssert(vIns(vt, t, int64(10*(w+1)+i), int64(i), nil) == nil, "insert-ok")
+				f := symInt("fault")
+				symAssume(f >= 0)
+				symAssume(f < 6)
+				bkt.faultOn, bkt.faultAt = true, bkt.reqs+f
+				err := vt.Commit(vCtx)
+				bkt.faultOn = false
+				if err != nil {
+					symAssert(vt.Rollback() == nil, "rollback-ok")
+					symAssert(vt.Begin(vCtx) == nil, "begin-ok")
+					symAssert(vIns(vt, t, int64(10*(w+1)+i), int64(i), nil) == nil, "insert-again-ok")
+					symAssert(vt.Commit(vCtx) == nil, "commit-after-fault-ok")
+				}
+			} else {
+				err := vIns(vt, t, int64(10*(w+1)+i), int64(i), nil)
+				symAssert(err == nil, "insert-ok")
+				symAssert(vt.Commit(vCtx) == nil, "commit-ok")
+			}
 			after := snap(vt)
 			symAssert(!symDeepEq(before.names, after.names), "version-changes-when-contents-change")
 		case 1: // update (or no-op when the row is not there) and commit
